@@ -77,7 +77,7 @@ Print Assumptions C12_guards_arith_IsInPlaintextRange.
 
 Theorem C12_guards_arith_IsInPlaintextRange_trace_ok :
   go_arith_IsInPlaintextRange_trace =
-    ["if N == nil || n == nil -> return false"; "if n.TrueLen() > N.BitLen() -> return false";
+    ["if N == nil || n == nil -> return false"; "if !hasBoundedAnnouncedLen(n) || n.TrueLen() > N.BitLen() -> return false";
      "do nHalf := new(saferith.Nat).SetNat(N.Nat())"; "do nHalf.Rsh(nHalf, 1, -1)";
      "do gt, _, _ := n.Abs().Cmp(nHalf)"; "return gt != 1"].
 Proof. exact (@arith_IsInPlaintextRange_trace_ok). Qed.
